@@ -215,6 +215,7 @@ E("recorddiff0", 2, lambda S, **kw: etl.recorddiff(S[0], etl.cut(S[1], "s", "v",
 E("recorddiff1", 2, lambda S, **kw: etl.recorddiff(S[0], etl.cut(S[1], "s", "v", "j", "k"), **kw)[1], "sorted rect")
 E("hashcomplement", 2, lambda S: etl.hashcomplement(S[0], S[1]), "rect hash")
 E("hashintersection", 2, lambda S: etl.hashintersection(S[0], S[1]), "rect hash")
+E("hashcomplement_strict", 2, lambda S: etl.hashcomplement(S[0], S[1], strict=True), "rect hash")
 # ---- dedup ----------------------------------------------------------------------------------
 E("duplicates", 1, lambda S, **kw: etl.duplicates(S[0], "k", **kw), "sorted presorted rect", presort="k")
 E("duplicates_none", 1, lambda S, **kw: etl.duplicates(S[0], **kw), "sorted presorted rect", presort=None)
